@@ -1,6 +1,7 @@
 package test
 
 import (
+	"github.com/ipld/go-ipld-prime/linking"
 	"github.com/ipld/go-ipld-prime/node/basicnode"
 	cidlink "github.com/ipld/go-ipld-prime/linking/cid"
 	"github.com/ipfs/go-cid"
@@ -64,6 +65,9 @@ func buildFileFor(w, K, L int) *builtFile {
 	assumeDistinctChunks(content, K)
 	st := verifmodel.NewStore()
 	ls := st.LinkSystem()
+	// (the link system already carries another ADL's reifier when UnixFS is added: the
+	// registration must not depend on being the first)
+	ls.KnownReifiers = map[string]linking.NodeReifier{"other-adl": func(_ linking.LinkContext, n datamodel.Node, _ *linking.LinkSystem) (datamodel.Node, error) { return n, nil }}
 	unixfsnode.AddUnixFSReificationToLinkSystem(ls)
 	lnk, _, err := builder.BuildUnixFSFile(bytes.NewReader(content), "size-"+strconv.Itoa(K), ls)
 	verifrt.Assert(err == nil, "build-ok")
@@ -378,6 +382,9 @@ func VerifFileKthLoadFails() {
 func VerifHandBuiltReadOrder() {
 	st := verifmodel.NewStore()
 	ls := st.LinkSystem()
+	// (the link system already carries another ADL's reifier when UnixFS is added: the
+	// registration must not depend on being the first)
+	ls.KnownReifiers = map[string]linking.NodeReifier{"other-adl": func(_ linking.LinkContext, n datamodel.Node, _ *linking.LinkSystem) (datamodel.Node, error) { return n, nil }}
 	unixfsnode.AddUnixFSReificationToLinkSystem(ls)
 	next := byte('a')
 	var order []string // expected first-request order below the root
